@@ -137,6 +137,10 @@ def check(run):
                     if len(run.samples) < 3 and interleaved and fam in ('race2', 'get-release-get') and backend == 'file':
                         run.sample({'backend': backend, 'scripts': scripts, 'schedule': [[d[0], d[2], d[3]] for d in decisions], 'results': results})
                 run.counts['schedules_%s_%s' % (backend, fam)] = n
+            # the read-only memoizing wrapper (`jug status` looks at locks through it): whatever the order and number of its queries, a lock that is
+            # free / held / marked failed underneath is reported as such (locked iff held or failed; failed iff failed)
+            if backend != 'keepalive':
+                memoized_observers(run, backend, scratch)
             # random longer histories
             for k in range(20 if quick else 300):
                 nc = rng.choice([2, 3, 4])
@@ -262,6 +266,42 @@ def fail_racing_refresh(run, scratch):
     finally:
         fs.Popen = saved
         core.rm_rf(d)
+
+
+def memoized_observers(run, backend, scratch):
+    import itertools
+    from jug.backends.memoize_store import memoize_store
+    from jugverif import storecheck
+    for state in ('free', 'held', 'failed'):
+        for list_base in (False, True):
+            d = os.path.join(scratch, 'memo-%s-%s-%s' % (backend, state, list_base))
+            os.makedirs(d, exist_ok=True)
+            cfg = storecheck.Cfg({'file': 'file', 'redis': 'redis', 'dict': 'dict'}[backend], d)
+            base = cfg.open()
+            name = b'e' * 40
+            if state != 'free':
+                assert base.getlock(name).get()
+            if state == 'failed':
+                lk0 = base.getlock(name) if backend == 'dict' else None
+                holder = base.getlock(name)
+                # the holder marks it failed (the lock object that took it, where the backend keeps state per object)
+                if backend == 'file':
+                    holder.fail()
+                else:
+                    holder.fail()
+            want = {'is_locked': state != 'free', 'is_failed': state == 'failed'}
+            for seq in itertools.chain.from_iterable(itertools.product(('is_locked', 'is_failed'), repeat=r) for r in (1, 2, 3)):
+                ms = memoize_store(cfg.open(), list_base=list_base)
+                lk = ms.getlock(name)
+                got = [(op, bool(getattr(lk, op)())) for op in seq]
+                run.case(('memoized', backend, state, list_base, seq), nontrivial=state != 'free')
+                run.count('memoized_observer_sequences')
+                bad = [(op, r) for op, r in got if r != want[op]]
+                if bad:
+                    run.fail('memoized-lock-misreported', '%s lock that is %s, seen through the memoizing store (list_base=%s): the queries %s answer %s; %s() must be %s'
+                             % (backend, state, list_base, list(seq), [r for _, r in got], bad[0][0], want[bad[0][0]]),
+                             {'kind': 'memoized', 'backend': backend, 'state': state, 'list_base': list_base, 'sequence': list(seq)})
+                    return
 
 
 def judge_random(run, backend, scripts, decisions, events, results, other, drv):
